@@ -42,9 +42,11 @@ def step_st(draw, outcomes=None, cols=None, with_async=True, with_cleanup=False,
         step["o"] = draw(outcome_st(outcomes))
         if step["o"] == "convert" and draw(st.booleans()):
             step["o"] = "convert_key"       # a type converter may raise anything (KeyError from a lookup table)
+        if step["o"] == "raise" and draw(st.integers(0, 2)) == 0:
+            step["o"] = "raise_timeout"     # any exception type is an error, also TimeoutError
     if with_async and step["o"] not in ("interrupt", "undefined", "convert", "convert_key") and \
             not step["o"].startswith("<") and draw(st.integers(0, 5)) == 0:
-        step["a"] = True
+        step["a"] = draw(st.sampled_from([True, 2]))    # 2: @async_run_until_complete(timeout=...)
     if with_cleanup:
         c = draw(st.integers(0, 7))
         if c == 0:
@@ -90,6 +92,8 @@ def outline_st(draw, inherited=False, max_steps=3, outcomes=None, **kw):
             o = draw(outcome_st(outcomes))
             if o == "convert" and draw(st.booleans()):
                 o = "convert_key"
+            if o == "raise" and draw(st.integers(0, 2)) == 0:
+                o = "raise_timeout"
             cell = {"x": PHRASE[o],
                     "t": draw(st.sampled_from(TAGS))}
             rows.append([cell[c] for c in order])
